@@ -79,6 +79,46 @@ theorem two_cycle_deadlocks (a b : Nat) (edges : List (Nat × Nat))
     · exact ⟨b, rfl, ⟨[b], some a⟩, by simp, by simp⟩
     · exact ⟨a, rfl, ⟨[a], some b⟩, by simp, by simp⟩
 
+/-- **Progress.** In a state that is not deadlocked, whenever some thread waits there is a waiting
+    thread whose wanted mutex is free or held only by threads that are NOT waiting (running
+    holders): the wait of that thread ends as soon as those holders release — which, with no lock
+    leak, they do before they return. (Classical: the proof picks the set of all waiting threads.) -/
+theorem some_waiter_can_proceed (thrs : List Lock.Thr) (h : ¬ Lock.Deadlocked thrs)
+    (hw : ∃ t ∈ thrs, t.waiting ≠ none) :
+    ∃ t ∈ thrs, ∃ m, t.waiting = some m ∧ ∀ t' ∈ thrs, m ∈ t'.held → t'.waiting = none := by
+  apply Classical.byContradiction
+  intro hno
+  apply h
+  refine ⟨thrs.filter (fun t => t.waiting.isSome), ?_, ?_, ?_⟩
+  · obtain ⟨t, ht, hne⟩ := hw
+    intro hnil
+    have hmem : t ∈ thrs.filter (fun t => t.waiting.isSome) :=
+      List.mem_filter.mpr ⟨ht, by cases h' : t.waiting with
+        | none => exact absurd h' hne
+        | some _ => rfl⟩
+    rw [hnil] at hmem
+    exact absurd hmem List.not_mem_nil
+  · intro t ht
+    exact (List.mem_filter.mp ht).1
+  · intro t ht
+    obtain ⟨htm, hs⟩ := List.mem_filter.mp ht
+    cases hwt : t.waiting with
+    | none => rw [hwt] at hs; exact Bool.noConfusion hs
+    | some m =>
+      refine ⟨m, rfl, ?_⟩
+      apply Classical.byContradiction
+      intro hnone
+      apply hno
+      refine ⟨t, htm, m, hwt, ?_⟩
+      intro t' ht' hheld
+      apply Classical.byContradiction
+      intro hwait
+      apply hnone
+      refine ⟨t', List.mem_filter.mpr ⟨ht', ?_⟩, hheld⟩
+      cases h' : t'.waiting with
+      | none => exact absurd h' hwait
+      | some _ => rfl
+
 /-! ## guarded-by -/
 
 /-- every access to `x` in the (latest-first) trace is made by a thread that owns `m` at that moment -/
